@@ -446,6 +446,11 @@ type PropHooks interface {
 }
 
 func (t *taskState) fail(idx int, po *prepOp, kind, msg string) {
+	if kind == "alias" && t.x.prop != "C11" && t.x.prop != "C19" {
+		// aliasing and mutation of caller memory are C11's (for interned strings C19's) to report
+		t.probe("other_property:alias")
+		return
+	}
 	v := &Violation{Prop: t.x.prop, Kind: kind, Task: t.id, OpIdx: idx, OpKind: po.op.Kind, Type: po.op.Type, Msg: msg}
 	t.viol = append(t.viol, v)
 }
